@@ -43,6 +43,9 @@ ByName(w, pl) == EffEnumMeth(w, pl) /\ EffEnumConv(w)
 \* named deviation DevLookupBeforeOwnSetting (known finding): M1 is built first; when it made goverter generate the helper for the enum
 \* pair, M2 finds that helper by lookup before its own `enum no` is consulted and converts by name as well
 DevHelperOfSibling(w) == ByName(w, w.p1) /\ ~EffEnumMeth(w, w.p2)
+\* kind "emptypath": wrapErrorsUsing on a method whose failing conversion has no field, index or key above it (M1(*string) (*int, error)):
+\* the wrap package is still called (with no elements) and therefore imported
+WProgsP == {[kind |-> "emptypath", pc |-> "using", p1 |-> "absent", p2 |-> "absent"]}
 LinesOf(pl) == IF pl = "absent" THEN <<>> ELSE <<[key |-> "wrapErrors", val |-> pl]>>
 EffConvW(w) == Effective(<<>>, LinesOf(w.pc), <<>>, "wrapErrors")
 EffMethW(w, pl) == Effective(<<>>, LinesOf(w.pc), LinesOf(pl), "wrapErrors")
